@@ -134,6 +134,36 @@ class A(Adapter):
             return "target_reached"
         return None
 
+    # ---- reach probes ------------------------------------------------------------------------------
+    def events(self, ps, action, s, ts, env, cfg):
+        walls = np.asarray(s.walls).astype(bool)
+        R, C = walls.shape
+        now, tgt = self._pos(s.agent_position), self._pos(s.target_position)
+        n_legal = int(self.legal(s, env).sum())
+        if ps is None:
+            return ((["reset_nonsquare"] if R != C else []) + (["reset_agent_adjacent_to_target"] if abs(now[0] - tgt[0]) + abs(now[1] - tgt[1]) == 1 else [])
+                    + (["reset_agent_boxed_in"] if n_legal == 0 else []) + (["reset_toy_generator"] if cfg.get("gen") == "toy" else []))
+        a = int(action)
+        r, c = self._pos(ps.agent_position)
+        nr, nc = r + DELTA[a][0], c + DELTA[a][1]
+        ev = []
+        if not (0 <= nr < R and 0 <= nc < C):
+            ev.append("move_blocked_by_border")
+        elif walls[nr, nc]:
+            ev.append("move_blocked_by_wall")
+        else:
+            ev.append("moved")
+            if (nr, nc) == self._pos(ps.target_position):
+                ev.append("end_target_reached")
+        if now != tgt:
+            if n_legal == 0:
+                ev.append("agent_boxed_in_no_legal_move")
+            elif n_legal == 1:
+                ev.append("agent_in_dead_end")
+            if int(ts.step_type) == 2 and abs(now[0] - tgt[0]) + abs(now[1] - tgt[1]) == 1:
+                ev.append("ended_one_step_from_target")
+        return ev
+
     # ---- C12 -------------------------------------------------------------------------------------
     def observe(self, s, obs, env, cfg):
         if self._pos(obs.agent_position) != self._pos(s.agent_position):
